@@ -15,6 +15,7 @@ implications below is the "never renumbered" clause.  The invariants are proved 
 import LC.Proofs.ReduceLemmas
 import LC.Proofs.FreeVars
 import LC.Props.C06
+import LC.Props.C02
 
 namespace LC
 open Term Spec
@@ -43,6 +44,23 @@ example : FreeIn 2 (app (app (app (var 2) (var 0)) (var 2)) (var 0)) ∧
     FreeIn 2 (abs (app (app (var 1) (var 3)) (var 0))) ∧ FreeIn 2 (app (var 2) (var 0)) ∧
     ¬ FreeIn 1 (app (app (app (var 2) (var 0)) (var 2)) (var 0)) := by
   simp [FreeIn, freeInAux]
+
+/-- C08, UD is never SHIFTED: `update_free_variables` leaves index 0 alone at every depth, for every shift amount -/
+theorem C08_ud_not_shifted (added own : Nat) : shiftFV added own (var 0) = var 0 := by
+  simp [shiftFV]
+
+/-- C08, UD is never SUBSTITUTED FOR and never renumbered: `_apply` (at every depth ≥ 1, the only depths at which it
+runs on a body) leaves index 0 alone -/
+theorem C08_ud_not_substituted (rhs : Term) (depth : Nat) (hd : 1 ≤ depth) : applyAux rhs depth (var 0) = var 0 := by
+  have h1 : ¬ (0 = depth) := by omega
+  have h2 : ¬ (0 > depth) := by omega
+  simp [applyAux, h1, h2]
+
+/-- C08, positional form: every occurrence of UD in the body of an abstraction is an occurrence of UD at the SAME position
+of the result of `apply`, under the same number of binders (so it is not captured either), whatever the argument is -/
+theorem C08_ud_occurrences_kept (b a : Term) (p : Pos) (k : Nat) (h : subAt b p = some (var 0, k)) :
+    subAt (substTop b a) p = some (var 0, k) :=
+  (C02_occurrencewise b a p 0 k h).1 (Nat.zero_le k)
 
 /-- C08: one β-step creates no free variable and renumbers none -/
 theorem C08_step (j : Nat) (t u : Term) (hb : Beta t u) (hf : FreeIn j u) : FreeIn j t :=
@@ -81,6 +99,17 @@ theorem C08_closed (o : Order) (L fuel : Nat) (t t' : Term) (c : Nat)
 example : hasFreeVariables (app (abs (app (var 1) (var 1))) (abs (var 1))) = false ∧
     reduce .CBV 0 10 (app (abs (app (var 1) (var 1))) (abs (var 1))) = some (abs (var 1), 2) := by
   decide
+
+/-- C08, `apply`: closed stays closed — an abstraction without free variables (and without UD) applied to such an
+argument leaves such a term -/
+theorem C08_apply_closed (b a r : Term) (h : Term.apply (abs b) a = .ok r)
+    (hb : hasFreeVariables (abs b) = false) (ha : hasFreeVariables a = false) : hasFreeVariables r = false := by
+  rw [C02_apply_abs] at h
+  cases h
+  have hc : hasFreeVariables (app (abs b) a) = false := by
+    simp only [hasFreeVariables, hasFreeVariablesHelper, Bool.or_eq_false_iff] at hb ha ⊢
+    exact ⟨hb, ha⟩
+  exact closed_star (Star.head (Beta.red b a) (Star.refl _)) hc
 
 /-- C08: the crate's `has_free_variables` is "some free variable or UD occurs" -/
 theorem C08_hasFreeVariables_iff (t : Term) :
